@@ -386,6 +386,12 @@ def main(argv=None):
             contracts = [c for c in contracts if c.func in only]
         results = run_parallel(vf, contracts, args.jobs) if contracts else {}
         lemma_results = L.run_lemmas(vf, prop, args.jobs) if not args.only else []
+        guard_problems = []
+        guards_run = 0
+        for modname in [m for m in sys.modules if m.startswith("contracts.c")]:
+            for g in getattr(sys.modules[modname], "GUARDS", {}).get(prop, []):
+                guards_run += 1
+                guard_problems += [f"guard {g.__name__}: {p}" for p in g(root)]
         bounded = [] if (args.no_bounded or args.only) else run_bounded(prop, tier, root, seed, args.jobs)
     except Exception as ex:
         print("checker crash:", "".join(traceback.format_exception(type(ex), ex, ex.__traceback__)))
@@ -414,6 +420,7 @@ def main(argv=None):
         if lr["status"] != "ok":
             (crashes if lr["status"] == "error" else undecided).append(f"lemma {lr['name']}: {lr['status']}: {lr.get('message', '')[:300]}")
 
+    undecided += guard_problems
     known_oids = {k["obligation"]: k for k in known if k["property"] == prop and k.get("obligation")}
     discharged = 0
     failed = []
